@@ -6,7 +6,8 @@ import PyPhysim.Model.C04
 `pyphysim/mimo/mimo.py` seen through their public life cycle: constructed with
 a channel, then any sequence of
 
-* `set_channel_matrix(channel)`      (`Op.setChannel`)
+* `set_channel_matrix(channel)`      (`Op.setChannel`; the object may also be built without a
+  channel, `constructEmpty`, and get one later)
 * `set_noise_var(None | σ²)`         (`Op.setNoiseVar`, Blast family only)
 * `encode(x)`, `decode(Y)`           (`Op.encode`, `Op.decode`)
 * `_calc_precoder(self._channel)`, `_calc_receive_filter(self._channel, v)`
@@ -77,11 +78,15 @@ inductive Op (α : Type)
   | filters (v : α)
   | sinr (v : α)
 
-/-- the object state: `_channel` and `_noise_var` (`0.0` and never read outside the Blast family) -/
+/-- the object state: `_channel` (`None` until a channel is set) and `_noise_var` (`0.0` and
+    never read outside the Blast family) -/
 structure Obj (α : Type) where
   scheme : Scheme
-  chan : Chan α
+  chan : Option (Chan α)
   nv : α
+
+/-- which observation is made (for the error an object without channel answers with) -/
+inductive ObsKind | encode | decode | filters | sinr
 
 section
 variable {α : Type} [Zero α] [One α] [Add α] [Sub α] [Mul α] [Div α] [Neg α] [NatCast α] [CScalar α]
@@ -101,8 +106,24 @@ def storeChan : Scheme → ChanArg α → Except PyErr (Chan α)
 /-- `cls(channel)`: `set_channel_matrix(channel)`, then `_noise_var = 0.0` -/
 def construct (s : Scheme) (c : ChanArg α) : Except PyErr (Obj α) :=
   match storeChan s c with
-  | .ok ch => .ok ⟨s, ch, 0⟩
+  | .ok ch => .ok ⟨s, some ch, 0⟩
   | .error e => .error e
+
+/-- `cls()`: no channel yet (`_channel = None`), `_noise_var = 0.0` -/
+def constructEmpty (s : Scheme) : Obj α := ⟨s, none, 0⟩
+
+/-- what the calls raise while `_channel is None`: `encode` of the Blast family trips the
+    `assert` in `Nt`; the others fail on `None.shape` (`AttributeError`), on `svd(None)`
+    (GMD decode: `LinAlgError`, a `ValueError`), on indexing the 0-d array `asarray(None)` (Alamouti decode:
+    `IndexError`), on `norm(None, 'fro')` (Alamouti SINR: `ValueError`); Alamouti has no
+    linear precoder at all (`RuntimeError`).  `Alamouti.encode` does not use the channel. -/
+def unsetErr : Scheme → ObsKind → PyErr
+  | .blast, .encode | .mrc, .encode | .svd, .encode | .gmd, .encode => .AssertionError
+  | .gmd, .decode => .ValueError
+  | .alamouti, .decode => .IndexError
+  | .alamouti, .filters => .RuntimeError
+  | .alamouti, .sinr => .ValueError
+  | _, _ => .AttributeError
 
 /-- first row of the stored channel (the MRT channel vector) -/
 def row0 (c : Chan α) : Option (Vec α c.nt) :=
@@ -217,7 +238,7 @@ def sinrObs (K : Kernels α) (s : Scheme) (c : Chan α) (v : α) : Out α :=
 def step (K : Kernels α) (o : Obj α) : Op α → Obj α × Out α
   | .setChannel c =>
       match storeChan o.scheme c with
-      | .ok ch => ({ o with chan := ch }, .done)
+      | .ok ch => ({ o with chan := some ch }, .done)
       | .error e => (o, .err e)
   | .setNoiseVar v =>
       if o.scheme.blastFamily then
@@ -225,15 +246,28 @@ def step (K : Kernels α) (o : Obj α) : Op α → Obj α × Out α
         | .ok x => ({ o with nv := x }, .done)
         | .error e => (o, .err e)
       else (o, .err .AttributeError)
-  | .encode _ x => (o, encodeOf K o.scheme o.chan x)
-  | .decode _ _ Y => (o, decodeOf K o.scheme o.chan o.nv Y)
+  | .encode _ x =>
+      (o, match o.chan with
+          | some c => encodeOf K o.scheme c x
+          | none => if o.scheme = .alamouti then outOfExcept (alamoutiEncode x)
+                    else .err (unsetErr o.scheme .encode))
+  | .decode _ _ Y =>
+      (o, match o.chan with
+          | some c => decodeOf K o.scheme c o.nv Y
+          | none => .err (unsetErr o.scheme .decode))
   | .filters v =>
-      (o, match precoderOf K o.scheme o.chan, filterOf K o.scheme o.chan v with
-          | .mat m n A, .mat p q B => .two m n A p q B
-          | .err e, _ => .err e
-          | _, .err e => .err e
-          | _, _ => .err .Fuel)
-  | .sinr v => (o, sinrObs K o.scheme o.chan v)
+      (o, match o.chan with
+          | some c =>
+              (match precoderOf K o.scheme c, filterOf K o.scheme c v with
+               | .mat m n A, .mat p q B => .two m n A p q B
+               | .err e, _ => .err e
+               | _, .err e => .err e
+               | _, _ => .err .Fuel)
+          | none => .err (unsetErr o.scheme .filters))
+  | .sinr v =>
+      (o, match o.chan with
+          | some c => sinrObs K o.scheme c v
+          | none => .err (unsetErr o.scheme .sinr))
 
 /-- the object after a history -/
 def run (K : Kernels α) (o : Obj α) : List (Op α) → Obj α
@@ -244,11 +278,11 @@ def run (K : Kernels α) (o : Obj α) : List (Op α) → Obj α
 
 /-- the channel stored after the history: the last `set_channel_matrix` argument the class
     accepts, else the one the object had -/
-def cfgChan (s : Scheme) (c0 : Chan α) : List (Op α) → Chan α
+def cfgChan (s : Scheme) (c0 : Option (Chan α)) : List (Op α) → Option (Chan α)
   | [] => c0
   | .setChannel c :: ops =>
       (match storeChan s c with
-       | .ok ch => cfgChan s ch ops
+       | .ok ch => cfgChan s (some ch) ops
        | .error _ => cfgChan s c0 ops)
   | _ :: ops => cfgChan s c0 ops
 
